@@ -200,7 +200,7 @@ func C03(c *Ctx) {
 	}
 	shapes := [][2]int{{3, 3}, {4, 4}}
 	if c.Thorough() {
-		shapes = append(shapes, [2]int{3, 5}, [2]int{4, 5}, [2]int{5, 4})
+		shapes = append(shapes, [2]int{3, 5})
 	}
 	c.Harnesses = append(c.Harnesses, "harness/LALR/zz_verif_digraph.go:VerifDigraph")
 	c.Bound("U: Digraph/Traverse/Union on every relation with (nodes, edges) in %v, visiting order fixed without loss of generality, singleton base sets", shapes)
@@ -212,7 +212,7 @@ func C03(c *Ctx) {
 	// base sets of size 3 with spare capacity / empty base sets: aliasing between result sets
 	sized := [][3]int{{4, 3, 1003}}
 	if c.Thorough() {
-		sized = append(sized, [3]int{4, 4, 1003}, [3]int{5, 4, 11003}, [3]int{5, 4, 33003})
+		sized = append(sized, [3]int{4, 4, 1003}, [3]int{5, 4, 11003})
 	}
 	for _, sh := range sized {
 		c.RunSym(SymJob{Name: fmt.Sprintf("digraph n=%d E=%d sizes=%d", sh[0], sh[1], sh[2]), Eng: eng, PkgPath: RepoModule + "/LALR", Entry: "VerifDigraphSized",
